@@ -30,6 +30,7 @@
 #include <poll.h>
 #include <signal.h>
 #include <sys/socket.h>
+#include <sys/stat.h>
 
 #include <fstream>
 #include <functional>
@@ -612,6 +613,59 @@ static void fillTls(const Cell &c, TransportConfig::TlsConfig &t, TlsMode mode)
   if (c.n("lvl0")) t.ciphers = "DEFAULT:@SECLEVEL=0";
 }
 
+// ---- lifecycle coordinate ("life") of the Transport entries
+//   fresh              start() once on a correctly provisioned transport
+//   retry-provisioned  iora's own certificate/key files do not exist yet: the first start() must fail at the
+//                      cert/key load; the files appear; start() is retried on the SAME transport object
+//   retry-missing      the same, but the files are still missing at the retry
+//   restart            start(), stop(), start() again, then the connection
+struct LifeState
+{
+  string kind = "fresh", dir, realCert, realKey, lateCert, lateKey;
+};
+static void copyFile(const string &from, const string &to)
+{
+  string data = vf::readFile(from);
+  FILE *f = fopen(to.c_str(), "w");
+  if (f) { fwrite(data.data(), 1, data.size(), f); fclose(f); }
+}
+static LifeState prepareLife(const Cell &c, TransportConfig::TlsConfig &t)
+{
+  LifeState L;
+  L.kind = c.s("life", "fresh");
+  if (L.kind.rfind("retry-", 0) != 0 || t.certFile.empty()) return L;
+  L.dir = g_pki.p("late-" + std::to_string(getpid()) + "-" + std::to_string(c.n("id")));
+  mkdir(L.dir.c_str(), 0755);
+  L.realCert = t.certFile; L.realKey = t.keyFile;
+  L.lateCert = t.certFile = L.dir + "/own.pem";
+  L.lateKey = t.keyFile = L.dir + "/own.key";
+  return L;
+}
+struct CellOut;
+static void lifeNote(CellOut &o, const char *k, bool v);
+static void lifeNoteS(CellOut &o, const char *k, const string &v);
+static StartResult startWithLife(const LifeState &L, Transport &t, CellOut &o)
+{
+  if (L.kind == "fresh") return t.start();
+  auto r = t.start();
+  lifeNote(o, "first_start_ok", r.isOk());
+  if (L.kind == "restart")
+  {
+    if (r.isErr()) return r;
+    t.stop();
+    return t.start();
+  }
+  if (r.isOk()) return r; // nothing went missing (no own certificate configured)
+  lifeNoteS(o, "first_start_err", r.error().message);
+  if (L.kind == "retry-provisioned") { copyFile(L.realCert, L.lateCert); copyFile(L.realKey, L.lateKey); }
+  return t.start();
+}
+static void cleanupLife(const LifeState &L)
+{
+  if (L.dir.empty()) return;
+  ::unlink(L.lateCert.c_str()); ::unlink(L.lateKey.c_str()); ::rmdir(L.dir.c_str());
+}
+
 static PeerCfg peerCfgOf(const Cell &c, bool peerIsServer, const string &myTok, const string &otherTok, bool http)
 {
   PeerCfg p;
@@ -644,6 +698,9 @@ struct CellOut
     return o + "}";
   }
 };
+
+static void lifeNote(CellOut &o, const char *k, bool v) { o.b(k, v); }
+static void lifeNoteS(CellOut &o, const char *k, const string &v) { o.s(k, v); }
 
 static void relayJson(CellOut &o, Relay &r, const string &ctok, const string &stok)
 {
@@ -682,13 +739,14 @@ static void runTransportClient(const Cell &c, CellOut &o, const string &ctok, co
   cfg.connectTimeout = std::chrono::milliseconds(6000);
   cfg.handshakeTimeout = std::chrono::milliseconds(6000);
   fillTls(c, cfg.clientTls, TlsMode::Client);
+  LifeState life = prepareLife(c, cfg.clientTls);
   auto I = std::make_shared<IoraObs>();
   auto t = Transport::tcp(cfg);
   t->onConnect([I](SessionId sid, const TransportAddress &) { std::lock_guard<std::mutex> g(I->m); I->onConnect++; I->connected.insert(sid); });
   t->onData([I](SessionId, iora::core::BufferView d, std::chrono::steady_clock::time_point) { std::lock_guard<std::mutex> g(I->m); I->rx.append((const char *)d.data(), d.size()); });
   t->onClose([I](SessionId sid, const TransportErrorInfo &e) { std::lock_guard<std::mutex> g(I->m); I->onClose++; I->closed.insert(sid); I->closeCode = int(e.code); I->closeMsg = e.message; });
   t->onError([I](TransportError, const string &m) { std::lock_guard<std::mutex> g(I->m); I->onError++; I->lastError = m; });
-  auto st = t->start();
+  auto st = startWithLife(life, *t, o);
   o.b("start_ok", st.isOk());
   if (st.isErr()) o.s("start_err", st.error().message);
   string host = c.s("host", "127.0.0.1");
@@ -730,6 +788,7 @@ static void runTransportClient(const Cell &c, CellOut &o, const string &ctok, co
   o.s("connectsync", syncRes);
   t->stop();
   t.reset();
+  cleanupLife(life);
   waitUntil([&] { return relay.active.load() == 0; }, 1500);
   relay.stop();
   peer.stop();
@@ -793,6 +852,7 @@ static void runTransportServer(const Cell &c, CellOut &o, const string &ctok, co
   TransportConfig cfg;
   cfg.handshakeTimeout = std::chrono::milliseconds(6000);
   fillTls(c, cfg.serverTls, TlsMode::Server);
+  LifeState life = prepareLife(c, cfg.serverTls);
   auto I = std::make_shared<IoraObs>();
   auto t = Transport::tcp(cfg);
   bool early = c.is("send", "early");
@@ -808,7 +868,7 @@ static void runTransportServer(const Cell &c, CellOut &o, const string &ctok, co
   t->onData([I](SessionId, iora::core::BufferView d, std::chrono::steady_clock::time_point) { std::lock_guard<std::mutex> g(I->m); I->rx.append((const char *)d.data(), d.size()); });
   t->onClose([I](SessionId sid, const TransportErrorInfo &e) { std::lock_guard<std::mutex> g(I->m); I->onClose++; I->closed.insert(sid); I->closeCode = int(e.code); I->closeMsg = e.message; });
   t->onError([I](TransportError, const string &m) { std::lock_guard<std::mutex> g(I->m); I->onError++; I->lastError = m; });
-  auto st = t->start();
+  auto st = startWithLife(life, *t, o);
   o.b("start_ok", st.isOk());
   if (st.isErr()) o.s("start_err", st.error().message);
   bool watchdog = false;
@@ -837,6 +897,7 @@ static void runTransportServer(const Cell &c, CellOut &o, const string &ctok, co
   }
   t->stop();
   t.reset();
+  cleanupLife(life);
   if (ran) { waitUntil([&] { return relay.active.load() == 0; }, 1500); }
   relay.stop();
   o.b("watchdog", watchdog);
